@@ -2017,8 +2017,8 @@ _SAFE_METHODS = {
     "dict": ("get", "items", "keys", "values", "copy", "update", "setdefault", "pop", "__getitem__", "__contains__", "__len__", "popitem", "clear"),
     "str": ("join", "format", "startswith", "endswith", "split", "lower", "upper", "strip", "encode", "replace", "rstrip", "lstrip", "isdigit"),
     "bytes": ("hex", "decode"),
-    "set": ("add", "union", "copy", "update", "discard", "remove"),
-    "frozenset": ("union",),
+    "set": ("add", "union", "copy", "update", "discard", "remove", "isdisjoint", "issubset", "issuperset", "intersection", "difference", "__contains__", "__len__"),
+    "frozenset": ("union", "isdisjoint", "issubset", "issuperset", "intersection", "difference", "__contains__", "__len__"),
 }
 
 
